@@ -35,6 +35,18 @@ ObsProj(A) == [imm |-> A.imm, mut |-> [i \in 1..Len(A.mut) |-> <<A.mut[i][1], A.
                peers |-> [i \in 1..Len(A.peers) |-> <<A.peers[i][1], A.peers[i][2]>>],
                sp |-> [i \in 1..Len(A.sp) |-> <<A.sp[i][1], A.sp[i][2]>>]]
 
+\* C20 (eviction half): after a write that both the node and the model acknowledged, the keys the node retains are the keys
+\* an LRU store retains (Server!PutLru / Touch: reads and writes promote) - a differing key set means the wrong entry was evicted
+Keys(p) == [imm |-> SeqToSet(p.imm), mut |-> {x[1] : x \in SeqToSet(p.mut)},
+            peers |-> {x[1] : x \in SeqToSet(p.peers)}, sp |-> {x[1] : x \in SeqToSet(p.sp)}]
+\* ... and the recency ORDER of the retained keys (what decides the next eviction) is the LRU order: a write is a use
+KeyOrder(p) == [imm |-> p.imm, mut |-> [i \in 1..Len(p.mut) |-> p.mut[i][1]],
+                peers |-> [i \in 1..Len(p.peers) |-> p.peers[i][1]], sp |-> [i \in 1..Len(p.sp) |-> p.sp[i][1]]]
+Eviction(o, A, m) == IF o.kind = "ack" /\ m.reply.kind = "ack" /\ Keys(A) # Keys(Proj(m.st))
+                     THEN {"C20_EvictsLeastRecentlyUsed"}
+                     ELSE IF o.kind = "ack" /\ m.reply.kind = "ack" /\ KeyOrder(A) # KeyOrder(Proj(m.st))
+                     THEN {"C20_RecencyOrder"} ELSE {}
+
 \* C15 timing formulas on the observation (tokens.rs + lazy rotation in server.rs)
 Timing(r, o, gap) ==
   IF ~(IsPut(r) /\ FilterAllows(s, r) /\ TokAt(Rec[l].r) >= 0 /\ r.tok.ip = r.from.ip) THEN {}
@@ -59,7 +71,7 @@ Req == /\ Rec[l].e = "req" /\ mode = "ok"
               A == ObsProj(Rec[l].A)
               counted == r.kind # "advance" /\ FilterAllows(s, r)
               gap == IF counted THEN (IF s.now - lastReq > maxgap THEN s.now - lastReq ELSE maxgap) ELSE maxgap
-              failed == L1Failed(s, r, o, A) \cup Timing(r, o, gap)
+              failed == L1Failed(s, r, o, A) \cup Timing(r, o, gap) \cup Eviction(o, A, m)
               conforms == o = m.reply /\ A = Proj(m.st)
           IN /\ IF failed # {}
                 THEN PrintT(<<"VIOL", ToJson([line |-> l, b |-> beh, failed |-> failed])>>) /\ mode' = "skip"
